@@ -396,6 +396,37 @@ pub open spec fn plain_received(l0: Seq<Option<(PeerIdentity, CodecResult<Messag
     &&& r is Ok ==> r->Ok_0 == last->Some_0.1->Ok_0->Message_0
 }
 
+// ---- C10 corollary: strict rotation ----
+/// the rotation after one successful send when the first identity is live: it moves to the back
+pub open spec fn rotate(q: Seq<PeerIdentity>) -> Seq<PeerIdentity> { q.subrange(1, q.len() as int).push(q[0]) }
+pub open spec fn rotate_n(q: Seq<PeerIdentity>, k: nat) -> Seq<PeerIdentity>
+    decreases k
+{ if k == 0 { q } else { rotate(rotate_n(q, (k - 1) as nat)) } }
+/// With a stable set of n live peers (every identity of the queue is in the table), the k-th of n consecutive
+/// successful sends goes to the k-th identity of the queue: n consecutive sends reach the n (distinct) peers, each
+/// exactly once, and the queue is back where it started.  (`rr_sent_to` says each send picks `q[first_live]` = `q[0]`
+/// here and leaves `rotate(q)`.)
+pub proof fn lemma_rotation_strict(q: Seq<PeerIdentity>, k: nat)
+    requires k <= q.len(), q.len() > 0,
+    ensures
+        rotate_n(q, k) =~= q.subrange(k as int, q.len() as int) + q.subrange(0, k as int),
+        k < q.len() ==> rotate_n(q, k)[0] == q[k as int],
+        k == q.len() ==> rotate_n(q, k) =~= q,
+    decreases k
+{
+    if k > 0 {
+        lemma_rotation_strict(q, (k - 1) as nat);
+        let r = rotate_n(q, (k - 1) as nat);
+        assert(r =~= q.subrange(k - 1, q.len() as int) + q.subrange(0, k - 1));
+        assert(r[0] == q[k - 1]);
+        assert(rotate(r) =~= q.subrange(k as int, q.len() as int) + q.subrange(0, k as int));
+    }
+}
+pub proof fn lemma_rotation_first_live_is_head<V>(q: Seq<PeerIdentity>, t: Map<PeerIdentity, V>)
+    requires q.len() > 0, t.contains_key(q[0]),
+    ensures first_live(q, t) == 0,
+{}
+
 } // verus!
 pub struct Uuid([u8; 16]);
 impl Uuid {
